@@ -36,7 +36,10 @@ func verifProtocols() []protocol.ID {
 // NewStream, which is arbitrary already. Modelling assumption: a host never opens a stream on a
 // context that is already done.
 //
-//verif:opts fuel=60 sched=12
+// (replay=engine: how long a failed attempt took is the clock's business; a counterexample that
+// depends on it cannot be forced on the native clock and is confirmed by engine replay)
+//
+//verif:opts fuel=60 sched=12 replay=engine
 func VerifC15_OpenStream() {
 	n := 1 + zz.Choice("attempts", 5)
 	p := peer.ID(zz.String("peer"))
@@ -207,6 +210,8 @@ func (f *verifSendFixture) opened() bool {
 
 // VerifC15_SendMessage: SendMessage with an arbitrary message, arbitrary stream-open outcomes
 // (cap 1 or 2), arbitrary protocol conversion / write / reset / close results.
+//
+//verif:opts replay=engine
 func VerifC15_SendMessage() {
 	f := verifNewSendFixture()
 	log := f.log
@@ -286,6 +291,8 @@ func VerifC15_SendMessage() {
 
 // VerifC15_ConnectWithRetry: the probe stream is opened with the same bounded retry and closed
 // exactly once; its Close result (or the open error) is reported.
+//
+//verif:opts replay=engine
 func VerifC15_ConnectWithRetry() {
 	f := verifNewSendFixture()
 	err := f.impl.ConnectWithRetry(context.Background(), f.p)
